@@ -15,6 +15,20 @@ def _observe(job):
     n = len(g)
     U = np.full((n, n), np.nan)
     err = [['' for _ in range(n)] for _ in range(n)]
+    if fam in ('Frank', 'Gumbel') and float(theta) >= 1.0:
+        # a live copula of the other solver-based family that carries the same parameter VALUE has answered the same questions before:
+        # what one object worked out is no business of another
+        try:
+            cousin = O.make('Gumbel' if fam == 'Frank' else 'Frank', float(theta))
+            with np.errstate(all='ignore'):
+                for i in range(0, n, 2):
+                    for j in range(n):
+                        try:
+                            cousin.percent_point(np.array([g[i]]), np.array([g[j]]))
+                        except Exception:
+                            pass
+        except Exception:
+            pass
     with np.errstate(all='ignore'):
         for i in range(n):          # y index
             for j in range(n):      # v index
@@ -29,20 +43,6 @@ def _observe(job):
         R[~ok] = np.nan
         # element-wise evaluation: vectors of length 2, the whole grid, a permutation, with repeated entries
         good = [(i, j) for i in range(n) for j in range(n) if not err[i][j]]
-        if fam in ('Frank', 'Gumbel') and float(theta) >= 1.0:
-            # a live copula of the other solver-based family that carries the same parameter VALUE answers a few of these questions
-            # first and once more afterwards: what one object worked out is no business of another (its answers are judged in its own table)
-            try:
-                cousin = O.make('Gumbel' if fam == 'Frank' else 'Frank', float(theta))
-                for (i, j) in good[:: max(1, len(good) // 12)]:
-                    cousin.percent_point(np.array([g[i]]), np.array([g[j]]))
-                for (i, j) in good[:: max(1, len(good) // 12)]:
-                    again = float(np.ravel(m.percent_point(np.array([g[i]]), np.array([g[j]])))[0])
-                    if abs(again - U[i, j]) > 1e-9:
-                        U[i, j] = np.nan        # shows up as a missing value of the table
-                        err[i][j] = 'changed-after-another-object-answered'
-            except Exception:
-                pass
         batch = []
         ufx = O.fx(U)
         if good:
